@@ -100,7 +100,7 @@ def interp_case(ctx, qs, ss, st, en, sc):
     b = nap.Tsd(farr(ss, sc), np.array(vals, dtype=float), time_support=full)
     ep = iset(st, en, sc)
     iv = lambda t: next((k for k, (s, e) in enumerate(zip(st, en)) if s <= t <= e), None)
-    for variant in ("ep", "own-default", "own-explicit"):
+    for variant in ("ep", "own-default", "own-explicit", "default-supports", "tensor-source"):
         _interp_variant(ctx, inp, variant, a, b, ep, qs, ss, vals, st, en, sc, iv)
     # the same call on the Lean model (np.interp over exact rationals, one epoch at a time)
     if ctx.lean:
@@ -116,8 +116,23 @@ def interp_case(ctx, qs, ss, st, en, sc):
 
 def _interp_variant(ctx, inp, variant, a, b, ep, qs, ss, vals, st, en, sc, iv):
     inp = dict(inp, variant=variant)
+    chan = None
     if variant == "ep":
         r = b.interpolate(a, ep)
+    elif variant == "default-supports":
+        # query and source built WITHOUT a time support (default [first, last]; a one-instant series has none): same samples, same result
+        if not qs or not ss:
+            return
+        r = nap.Tsd(farr(ss, sc), np.array(vals, dtype=float)).interpolate(nap.Ts(farr(qs, sc)), ep)
+    elif variant == "tensor-source":
+        # a TsdTensor source with distinct channels c1 * v + c0: interpolation is channel-wise (and affine in the data)
+        if not ss:
+            return
+        chan = [(1 + 3 * i + j, i - j) for i in range(2) for j in range(3)]
+        d3 = np.stack([np.array(vals, dtype=float) * c1 + c0 for c1, c0 in chan], 1).reshape(len(ss), 2, 3)
+        r = nap.TsdTensor(farr(ss, sc), d3, time_support=b.time_support).interpolate(a, ep)
+        if r.values.shape[1:] != (2, 3):
+            ctx.fail("oracle", "interpolate of a (n,2,3) tensor: shape", inp, impl=list(r.values.shape)); return
     else:
         # the source lives ON the multi-interval support; ep omitted, or passed as the very same object
         keep = [i for i, t in enumerate(ss) if iv(t) is not None]
@@ -129,7 +144,8 @@ def _interp_variant(ctx, inp, variant, a, b, ep, qs, ss, vals, st, en, sc, iv):
     qin = [q for q in qs if iv(q) is not None]
     if ns_arr(r.t) != [q * sc for q in qin]:
         ctx.fail("oracle", "interpolate timestamps", inp, impl=ns_arr(r.t), expected=[q * sc for q in qin]); return
-    for q, v in zip(qin, r.values):
+    rows = r.values if chan is None else r.values.reshape(len(r.values), 6)
+    for q, v in zip(qin, rows):
         src = [(t, x) for t, x in zip(ss, vals) if iv(t) == iv(q)]
         if not src:
             exp = None
@@ -141,6 +157,12 @@ def _interp_variant(ctx, inp, variant, a, b, ep, qs, ss, vals, st, en, sc, iv):
             j = max(i for i, (t, _) in enumerate(src) if t <= q)
             (t0, x0), (t1, x1) = src[j], src[j + 1]
             exp = Fraction(x0) + Fraction(x1 - x0) * Fraction(q - t0, t1 - t0)
+        if chan is not None:
+            for (c1, c0), vv in zip(chan, v):
+                if (exp is None) != bool(np.isnan(vv)) or (exp is not None and abs(float(exp) * c1 + c0 - vv) > 1e-9):
+                    ctx.fail("oracle", "interpolate of a tensor source, channel %s at query %d: got %s expected %s" %
+                             ((c1, c0), q, vv, None if exp is None else float(exp) * c1 + c0), inp, impl=[float(x) for x in v]); break
+            continue
         if exp is None:
             if not np.isnan(v):
                 ctx.fail("oracle", "interpolate should be NaN (interval holds no source sample)", inp, impl=float(v))
@@ -158,11 +180,20 @@ def group_case(ctx, sc):
     b = nap.Tsd(farr(ss, sc), np.arange(len(ss)) + 1.0, time_support=full)
     g = nap.TsGroup({k: nap.Ts(farr(v, sc), time_support=full) for k, v in mem.items()}, time_support=full)
     ep = iset(st, en, sc)
-    r = g.value_from(b, ep)
-    for k in mem:
-        m = g[k].value_from(b, ep)
-        if ns_arr(r[k].t) != ns_arr(m.t) or not np.array_equal(np.nan_to_num(r[k].values, nan=-1), np.nan_to_num(m.values, nan=-1)):
-            ctx.fail("oracle", "TsGroup.value_from member %d != member-wise result" % k, inp)
+    groups = [("explicit wide support", g)]
+    try:
+        # the group on its DEFAULT support (first to last spike): narrower than ep and than the source's support
+        groups.append(("default support", nap.TsGroup({k: nap.Ts(farr(v, sc)) for k, v in mem.items() if len(set(v)) >= 2})))
+    except Exception:
+        pass
+    for gname, gg in groups:
+        for mode in MODES:
+            r = gg.value_from(b, ep, mode=mode)
+            for k in gg.keys():
+                m = gg[k].value_from(b, ep, mode=mode)
+                if ns_arr(r[k].t) != ns_arr(m.t) or not np.array_equal(np.nan_to_num(r[k].values, nan=-1), np.nan_to_num(m.values, nan=-1)):
+                    ctx.fail("oracle", "TsGroup.value_from (%s, %s) member %d != member-wise result" % (gname, mode, k), dict(inp, group=gname, mode=mode),
+                             impl=[float(x) for x in np.nan_to_num(r[k].values, nan=-1)], expected=[float(x) for x in np.nan_to_num(m.values, nan=-1)])
 
 
 def run(ctx):
@@ -198,7 +229,7 @@ def replay(ctx, rec):
     elif "mode" in i:
         vf_case(ctx, i["qs"], i["ss"], i["st"], i["en"], i["mode"], i["scale_ns"], i["cls"], i["dtype"], [], [])
     else:
-        print("group case: re-run with the recorded seed"); return False
+        return None      # main re-executes the recorded run
     for f in ctx.failures[n0:]:
         print(f["kind"], f["what"], "impl=", f["impl"])
     return len(ctx.failures) == n0
